@@ -1,10 +1,12 @@
 import Driver.Linq
 import Driver.Gen
 import Driver.Meas
+import Driver.Ops
 open Lean Tangelo Tangelo.Driver Tangelo.Codec
 
 structure DState where
   store : Store := []
+  ostore : OStore := []
 
 def handle (st : DState) (j : Json) : DState × Json :=
   match j.getObjValD "op" with
@@ -13,6 +15,7 @@ def handle (st : DState) (j : Json) : DState × Json :=
   | .str "semeq" => (st, semEqOp j)
   | .str "backend_sim" => (st, backendSimOp j)
   | .str "branch" => (st, branchOp j)
+  | .str "mf" => (st, multiformOp j)
   | .str "exp_pauliword" => (st, expPauliwordOp j)
   | .str "exp_qubitop" => (st, expQubitOp j)
   | .str "atoms" =>
@@ -20,7 +23,11 @@ def handle (st : DState) (j : Json) : DState × Json :=
     let es : List Json := (List.range 6).map (fun i => cycToJson (Ang.e (unit i)))
     (st, Json.mkObj [("e", Json.arr es.toArray),
         ("f", Json.arr (Ang.atomFloats.map (fun f => Json.str (toString f))).toArray)])
-  | .str _ =>
+  | .str op =>
+    if op.startsWith "o_" then
+      let (s', r) := opStoreOp st.ostore j
+      ({ st with ostore := s' }, r)
+    else
     let (s', r) := circOp st.store j
     ({ st with store := s' }, r)
   | _ => (st, jErr "no op")
